@@ -36,7 +36,7 @@ ASSUMPTIONS = [
 ]
 STUBS = ["dask.array.core.{int,math,np} and dask.array.rechunk.{int,math,np} shims (isnan, ceil)"]
 ENUM = ["chunk-spec kind, number of chunks", "all inputs of auto_chunks and most of plan_rechunk (float arithmetic concretises them)"]
-OUTSIDE = ["auto_chunks with previous_chunks or >= 2 auto dimensions (fractional powers, np.median)", "byte-string limits", "p2p rechunk (needs distributed)",
+OUTSIDE = ["auto_chunks with previous_chunks / >= 2 auto dimensions beyond the solver-enumerated cases of auto_previous_chunks[...] (fractional powers, np.median: no symbolic claim)", "byte-string limits", "p2p rechunk (needs distributed)",
            "unknown (NaN) chunk sizes", "_balance_chunksizes"]
 BOUNDS = {
     "quick": dict(normalize="ndim<=2, dim in [0,8], chunk in [1,9]", old_to_new="<=3 old x <=3 new chunks, sizes >= 0 unbounded above", divide_to_width="<=2 chunks in [1,12], width in [1,12]",
@@ -361,11 +361,45 @@ def mk_auto(hi, limhi):
     return Obligation(f"auto[s<={hi},limit<={limhi}]", setup, run, patches=_patches)
 
 
+def _compositions(n, kmax):
+    import itertools
+    out = []
+    for k in range(1, min(kmax, n) + 1):
+        for cuts in itertools.combinations(range(1, n), k - 1):
+            b = (0,) + cuts + (n,)
+            out.append(tuple(y - x for x, y in zip(b, b[1:])))
+    return out
+
+
+def mk_auto_prev(shapes, kmax, limits):
+    """'auto' on BOTH axes with previous_chunks (what x.rechunk('auto') does): fractional powers and np.median make this float code, so
+    shapes, previous chunkings and limits are solver-enumerated. Bound asserted: block bytes <= limit * array.chunk-size-tolerance (the
+    documented slack of this mode; the property's plain 'within the limit' is asserted by auto[...] for the mode without previous_chunks)."""
+    import dask
+
+    def setup(e):
+        shape = e.pick("shape", shapes)
+        prev = tuple(e.pick(f"prev{a}", _compositions(d, kmax)) for a, d in enumerate(shape))
+        limit = e.pick("limit", limits)
+        return shape, prev, limit
+
+    def run(e, shape, prev, limit):
+        tol = dask.config.get("array.chunk-size-tolerance")
+        out = AC.normalize_chunks(("auto", "auto"), shape=shape, limit=limit, dtype=np.dtype("u1"), previous_chunks=prev)
+        for a in range(2):
+            e.check(sum(out[a]) == shape[a] and all(c > 0 for c in out[a]), f"auto chunks {out[a]} do not tile dimension {shape[a]}")
+        blk = max(out[0]) * max(out[1])
+        e.check(blk <= limit * tol + 1e-9, f"auto chunks {out} (largest block {blk} bytes) exceed limit {limit} x tolerance {tol} for previous chunks {prev}")
+        return out
+
+    return Obligation(f"auto_previous_chunks[{len(shapes)} shapes,<= {kmax} chunks/axis]", setup, run)
+
+
 def obligations(tier):
     if tier == "quick":
         return [mk_normalize(1, 8), mk_normalize(2, 5),
                 mk_old_to_new(1, 3, True), mk_old_to_new(3, 1, True), mk_old_to_new(2, 2, True), mk_old_to_new(3, 3, False), mk_old_to_new(2, 3, True),
-                mk_divide(1, 12), mk_divide(2, 8), mk_merge(3, 3), mk_plan(2, 3, 2), mk_auto(8, 32)]
+                mk_divide(1, 12), mk_divide(2, 8), mk_merge(3, 3), mk_plan(2, 3, 2), mk_auto(8, 32), mk_auto_prev([(6, 6), (8, 5), (12, 12)], 2, (4, 8, 16, 40))]
     return [mk_normalize(1, 12), mk_normalize(2, 8),
             mk_old_to_new(1, 4, True), mk_old_to_new(4, 1, True), mk_old_to_new(3, 3, True), mk_old_to_new(4, 4, False), mk_old_to_new(3, 4, True), mk_old_to_new(4, 2, True),
-            mk_divide(1, 20), mk_divide(2, 12), mk_divide(3, 8), mk_merge(4, 3), mk_merge(5, 2), mk_plan(3, 3, 3), mk_plan(2, 4, 2), mk_auto(12, 64)]
+            mk_divide(1, 20), mk_divide(2, 12), mk_divide(3, 8), mk_merge(4, 3), mk_merge(5, 2), mk_plan(3, 3, 3), mk_plan(2, 4, 2), mk_auto(12, 64), mk_auto_prev([(6, 6), (8, 5), (12, 12), (7, 9), (20, 20)], 3, (4, 8, 16, 24, 40, 100))]
